@@ -334,6 +334,8 @@ def run(chk, repo, tier):
     additive(chk, repo, 'C04-c')
     folding(chk, repo, 'C04-d')
     common.mul_concat(chk, repo, 'C04-d')
+    from .plane_flow import product_rule
+    product_rule(chk, repo, 'C04-d')
     from .c02 import contracts
 
     class _Only:
